@@ -3,7 +3,7 @@ CONSTANTS
   NM = 2
   KindSet = {"obj", "f0", "f1"}
   MaxBody = 2
-  MaxInv = 4
+  MaxInv = 3
   BodyAlpha = {"x", "f", "g", "a", "(", ")"}
   InvAlpha = {"f", "g", "a", "(", ")"}
   VarWs = FALSE
